@@ -167,6 +167,8 @@ func layerMediaType(docker bool, comp string) string {
 		switch comp {
 		case "tar":
 			return "application/vnd.docker.image.rootfs.diff.tar"
+		case "zstd":
+			return "application/vnd.docker.image.rootfs.diff.tar.zstd" // images.MediaTypeDockerSchema2LayerZstd
 		default:
 			return "application/vnd.docker.image.rootfs.diff.tar.gzip"
 		}
